@@ -1,5 +1,6 @@
 //! Concurrency primitives.
 #![allow(unsafe_code)]
+#![allow(unexpected_cfgs)]
 
 pub mod ctx;
 pub mod error;
@@ -13,3 +14,5 @@ pub mod signal;
 pub mod sync;
 pub mod testonly;
 pub mod time;
+#[cfg(era_consensus_verif)]
+pub mod verif;
